@@ -556,13 +556,21 @@ def dynamic_exposure_phase(fx, sername, rec, r):
             fx.daemon.register(obj, oid, weak=weak)
             pay = {"dynamic": True, "serializer": sername, "servertype": fx.servertype, "weak": weak, "by": by}
             try:
-                for stage in ("initial", "second-exposed", "third-and-prop-exposed"):
+                px = None
+                for stage in ("initial", "second-exposed", "third-and-prop-exposed", "after-local-proxy-was-adjusted"):
                     if stage == "second-exposed":
                         P.server.expose(Dyn.second)
                     elif stage == "third-and-prop-exposed":
                         P.server.expose(Dyn.third)
                         P.server.expose(Dyn.prop)          # a property object: marks its accessors
-                    if stage != "initial":
+                    if stage == "after-local-proxy-was-adjusted":
+                        # the application adjusts the metadata of the proxy that proxyFor() handed it (as the http gateway does with _pyroOneway):
+                        # that is the proxy's own copy, what the daemon advertises to others does not change
+                        px._pyroMethods.add("second_bogus")
+                        px._pyroAttrs.add("bogus_attr")
+                        px._pyroOneway.add("first")
+                        px._pyroMethods.discard("second")
+                    elif stage != "initial":
                         fx.daemon.resetMetadataCache(obj if by == "object" else oid)
                     # what a NEW peer is told ...
                     c = wire.RawClient(fx.location)
@@ -592,10 +600,10 @@ def dynamic_exposure_phase(fx, sername, rec, r):
                     rec.case(("dynamic", sername, fx.servertype, weak, by, stage), nontrivial=True)
                     for channel, meta in told.items():
                         adv_m, adv_a = set(meta.get("methods", ())), set(meta.get("attrs", ()))
-                        if adv_m != served_m or adv_a != served_a:
+                        if adv_m != served_m or adv_a != served_a or set(meta.get("oneway", ())):
                             rec.violation("metadata-differs-from-served:after-reset" if stage != "initial" else "metadata-differs-from-served",
-                                          "%s registration, resetMetadataCache(%s), stage %s: the %s advertises methods %r attrs %r, raw calls are served for methods %r attrs %r" % (
-                                              "weak" if weak else "strong", by, stage, channel, sorted(adv_m), sorted(adv_a), sorted(served_m), sorted(served_a)), dict(pay, stage=stage))
+                                          "%s registration, resetMetadataCache(%s), stage %s: the %s advertises methods %r attrs %r oneway %r, raw calls are served for methods %r attrs %r (none of them oneway)" % (
+                                              "weak" if weak else "strong", by, stage, channel, sorted(adv_m), sorted(adv_a), sorted(meta.get("oneway", ())), sorted(served_m), sorted(served_a)), dict(pay, stage=stage))
                             break
                     else:
                         rec.count("dynamic_exposure_stages_ok")
